@@ -11,6 +11,7 @@
 import Batchie.Lemmas.PrepHoldout
 import Batchie.Lemmas.PrepOps
 import Batchie.Lemmas.PrepExamples
+import Batchie.Lemmas.PrepBridge
 
 namespace Batchie.Props.C11
 open Batchie.Proto Batchie.Screen Batchie.Prep
@@ -227,6 +228,12 @@ theorem C11_permutation_labels (force perm : List Name) (s out : Screen)
     refine (List.Perm.append_right _ h3).trans ?_
     rw [← List.map_append]
     exact (rows_split_perm s).map _
+
+/-- model consistency: the `subset(sel).to_screen()` used by this model (`Prep.select`, on rows) is the shared, separately
+    validated `Screen.viewToScreen` on every constructed screen and every selection vector -/
+theorem C11_select_is_to_screen (r : Raw) (s : Screen) (hs : mk? r = .ok s) (sel : List Bool) :
+    select s sel = s.viewToScreen { parent := 0, sel := sel } :=
+  select_eq_viewToScreen hs sel
 
 /-! ### initial plate and combination filter -/
 
